@@ -8,6 +8,8 @@ An in-place update of member t is also emitted for the model as its *functional*
    new_base = keep_mask (.) old_base + scatter(written values)       (one cop, Model/OpsExact.v)
    every live member m := gather(new_base, bmap_m)
 so that Model/GraphP.v (and the adjoint theorem) applies to the equivalent purely functional program."""
+import json
+
 import numpy as np
 
 import exactops
@@ -165,6 +167,10 @@ class FBuilder(Builder):
             return False   # the memory owner was dropped by the caller: keep the model simple
         if not t.vals.flags.writeable:
             return False                                  # e.g. a broadcast_to view: NumPy refuses (see C13 for failing statements)
+        if isinstance(v, TInfo) and np.shares_memory(v.vals, t.vals) and ("array" in json.dumps(index) or "bool" in json.dumps(index)):
+            # source and destination overlap and the index is an integer / boolean array: NumPy copies element by element without overlap
+            # protection, so its own result depends on the traversal order (MyGrad reads the value before writing); not a defined semantics to mirror
+            return False
         t.vals[ix] = wb                                   # the NumPy mirror: all views see it
         self.stmts.append({"op": "setitem", "t": t.name, "index": index, "value": js})
         if vnode is None:
